@@ -615,7 +615,20 @@ pub fn exec_line(sess: &mut Session, line: &str) -> String {
                 None => return "no-package".to_string(),
             };
             let medium = sess.medium.clone().unwrap();
-            let res = match toks[1] {
+            let mut pkg = pkg;
+            // "ff:<mode>": the caller first calls flush() and the medium's own flush fails (a
+            // transient error); the session is still one that only read
+            let mode = match toks[1].strip_prefix("ff:") {
+                Some(m) => {
+                    let at = medium.stats.borrow().flushes;
+                    medium.stats.borrow_mut().fail_flush_at = Some(at);
+                    let _ = pkg.flush();
+                    medium.stats.borrow_mut().fail_flush_at = None;
+                    m
+                }
+                None => toks[1],
+            };
+            let res = match mode {
                 "flush" => {
                     let mut pkg = pkg;
                     let r = pkg.flush();
